@@ -183,11 +183,11 @@ def expand_case(seed, rng, ctx):
     for i in range(n):
         m = rng.random()
         if m < 0.5 or i == 0 and rng.random() < 0.8:
-            toks.append(rng.choice(['0', '1', '2', '0.5', '1.5e0', '3', '-1', '4.', '10']))
+            toks.append(rng.choice(['0', '1', '2', '0.5', '1.5e0', '3', '-1', '4.', '10', '1.5+0', '2d0', '5-1', '1.D1']))
         elif m < 0.65:
             toks.append(rng.choice(['r', '2r', '3R', 'R']))
         elif m < 0.78:
-            toks.append(rng.choice(['2m', '0.5m', '3M', '1.5m', 'm']))
+            toks.append(rng.choice(['2m', '0.5m', '3M', '1.5m', 'm', '5-1m', '2d0M']))
         elif m < 0.9:
             toks.append(rng.choice(['i', '2i', '3I', '1i']))
         else:
